@@ -174,3 +174,21 @@ package functions
 //@ func FunctionMap["substr"][1].Function
 //@   ensures err: (result1 != nil) == (values[1].Int < 0 || values[2].Int < 0)
 //@   ensures substr: result1 == nil ==> isStr(result0, ite(values[1].Int >= len(values[0].Str), "", substr(values[0].Str, values[1].Int, ite(values[1].Int + values[2].Int > len(values[0].Str), len(values[0].Str), values[1].Int + values[2].Int))))
+
+// ---- C12: LIKE. The pattern is translated rune by rune into a Go regular expression (Go's regexp engine trusted):
+// needsEscaping says exactly which runes are regexp metacharacters (regexp.QuoteMeta's set without the backslash,
+// which the translation handles itself); per rune the builder gains: "_" -> ".", "%" -> ".*", an escaped "_" or "%"
+// -> itself, an escaped backslash -> two backslashes, a metacharacter -> backslash + itself, anything else -> itself;
+// a backslash that escapes something else, or nothing, is an error.
+//@ func FunctionMap["like"][0].Function$lit1
+//@   ensures meta: result == (r == 43 || r == 63 || r == 40 || r == 41 || r == 123 || r == 125 || r == 91 || r == 93 || r == 94 || r == 36 || r == 46 || r == 42 || r == 124)
+//@ func FunctionMap["like"][0].Function$lit2
+//@   requires cachetag(regexpCache) == typeidptr(regexp.Regexp)
+//@   loop 1 step escapedwild: old(escaping) && (r == 95 || r == 37) ==> !escaping && built(sb) == old(built(sb)) + runeStr(r)
+//@   loop 1 step escapedbackslash: old(escaping) && r == 92 ==> !escaping && built(sb) == old(built(sb)) + runeStr(92) + runeStr(92)
+//@   loop 1 step escapedother: old(escaping) ==> r == 95 || r == 37 || r == 92
+//@   loop 1 step escape: !old(escaping) && r == 92 ==> escaping && built(sb) == old(built(sb))
+//@   loop 1 step any: !old(escaping) && r == 95 ==> !escaping && built(sb) == old(built(sb)) + runeStr(46)
+//@   loop 1 step all: !old(escaping) && r == 37 ==> !escaping && built(sb) == old(built(sb)) + ".*"
+//@   loop 1 step meta: !old(escaping) && r != 92 && r != 95 && r != 37 && (r == 43 || r == 63 || r == 40 || r == 41 || r == 123 || r == 125 || r == 91 || r == 93 || r == 94 || r == 36 || r == 46 || r == 42 || r == 124) ==> !escaping && built(sb) == old(built(sb)) + runeStr(92) + runeStr(r)
+//@   loop 1 step literal: !old(escaping) && r != 92 && r != 95 && r != 37 && !(r == 43 || r == 63 || r == 40 || r == 41 || r == 123 || r == 125 || r == 91 || r == 93 || r == 94 || r == 36 || r == 46 || r == 42 || r == 124) ==> !escaping && built(sb) == old(built(sb)) + runeStr(r)
